@@ -151,8 +151,35 @@ def topOrder : GQuery → List (SExpr × Bool)
 def orderFixed (op : GrpOp) : Bool :=
   !(topOrder op.query).isEmpty || modeOf op.mode == .table
 
+/-! `gret <mode> <n> <nrows> (<k> <v>)×nrows`: aggregates (plain and DISTINCT) of an outer query over a RETRACTING source,
+    `(SELECT t.k AS k, COUNT(t.v) AS c FROM t.csv t GROUP BY t.k TRIGGER COUNTING n) q`: every key's count is sent, retracted
+    and re-sent as it grows, equal counts of different keys are present several times. The outer aggregates must be those of
+    the FINAL inner table: `COUNT(DISTINCT c), SUM(DISTINCT c), COUNT(c), SUM(c), MAX(c), MIN(c)`. -/
+def parsePairs : Nat → List String → Option (List (Int × Int))
+  | 0, _ => some []
+  | n + 1, k :: v :: rest => do
+    let k ← k.toInt?
+    let v ← v.toInt?
+    let t ← parsePairs n rest
+    pure ((k, v) :: t)
+  | _, _ => none
+
+def parseGret : List String → Option (List (Int × Int))
+  | "gret" :: _ :: _ :: n :: rest => do parsePairs (← n.toNat?) rest
+  | _ => none
+
+def gretExpected (rows : List (Int × Int)) : String :=
+  let keys := (rows.map (·.1)).eraseDups
+  let counts : List Int := keys.map fun k => ((rows.filter fun r => r.1 == k).length : Int)
+  let dc := counts.eraseDups
+  let sum (l : List Int) : Int := l.foldl (· + ·) 0
+  let mx := counts.foldl max 0
+  let mn := counts.foldl min mx
+  s!"rows 1 | #{dc.length} #{sum dc} #{counts.length} #{sum counts} #{mx} #{mn}"
+
 def model (toks : List String) : String :=
   match toks with
+  | "gret" :: _ => (match parseGret toks with | some rows => gretExpected rows | none => "bad-op")
   | "res" :: name :: rest =>
     match parseTy rest, lookupDescs name with
     | some (t, _), some descs =>
@@ -225,6 +252,13 @@ def parseRowsOut (out : List String) : Option (List Row) :=
 
 def judge (toks : List String) (out : List String) : String :=
   match toks with
+  | "gret" :: _ =>
+    (match parseGret toks with
+     | none => "bad unparsable-op"
+     | some rows =>
+       if out == ["panic"] then "bad go-panic"
+       else if String.intercalate " " out == gretExpected rows then "ok"
+       else s!"bad aggregates-over-retracting-source-differ want={gretExpected rows}")
   | "res" :: name :: rest =>
     -- the oracle is `resolve`, which provably picks the first overload that fits (`Octo.C03.resolve_first_fit`)
     match parseTy rest, lookupDescs name with
